@@ -354,7 +354,8 @@ func runConcHTTP(in concIn) (fails []concFail) {
 			<-gate
 			for j := 0; j < in.PerPhase; j++ {
 				a := in.Addrs[rng.Intn(len(in.Addrs))]
-				url, isRead := "/livesim2/none/Manifest.mpd", false
+				// one address uses both mount points: /livesim2 and /vod share the quota
+				url, isRead := []string{"/livesim2/none/Manifest.mpd", "/vod/testpic_2s/Manifest.mpd", "/livesim2/testpic_2s/Manifest.mpd?nowMS=100000", "/vod/none.mpd"}[rng.Intn(4)], false
 				if rng.Intn(3) == 0 {
 					url, isRead = "/reqcount", true
 				}
